@@ -270,8 +270,13 @@ func (sk *SpaceKeeper) PlotWS(sid string) error {
 	// registered -> ready
 	// TODO: check for existence in plotterQueue
 	if ws, ok := sk.workSpaceIndex[engine.Registered].Get(sid); ok {
-		sk.newQueuedWorkSpaceCh <- newQueuedWorkSpace(ws, false)
-		return nil
+		// never block on the plotter's request channel while holding the state lock
+		select {
+		case sk.newQueuedWorkSpaceCh <- newQueuedWorkSpace(ws, false):
+			return nil
+		default:
+			return ErrTooManyPendingRequests
+		}
 	}
 
 	// plotting -> ready
@@ -309,8 +314,13 @@ func (sk *SpaceKeeper) MineWS(sid string) error {
 	// registered -> plotting -> mining
 	// TODO: check for existence in plotterQueue
 	if ws, ok := sk.workSpaceIndex[engine.Registered].Get(sid); ok {
-		sk.newQueuedWorkSpaceCh <- newQueuedWorkSpace(ws, true)
-		return nil
+		// never block on the plotter's request channel while holding the state lock
+		select {
+		case sk.newQueuedWorkSpaceCh <- newQueuedWorkSpace(ws, true):
+			return nil
+		default:
+			return ErrTooManyPendingRequests
+		}
 	}
 
 	// plotting -> mining
